@@ -47,7 +47,7 @@ def configs(tier, seed):
     for P, n in ((16, 20), (30, 40)):
         pre = {"P": P, "k": 3, "seed": 0, "peak": 0.3, "noise": 0.25}
         out.append({"name": "seq-modeb-B-n%d-P%d+3" % (n, P), "algo": "SequOOL", "part": "B", "d": 1, "T": P + 3, "params": {"n": n}, "prefix": pre, "cost": P})
-    out.append({"name": "hmax-sweep-n10..%d" % (400 if q == 0 else 3000), "mode": "hmax", "top": 400 if q == 0 else 3000, "algo": "SequOOL", "part": "B", "d": 1, "T": 0, "params": {}, "cost": 5})
+    out.append({"name": "hmax-sweep-n10..%d" % (10000 if q == 0 else 40000), "mode": "hmax", "top": 10000 if q == 0 else 40000, "algo": "SequOOL", "part": "B", "d": 1, "T": 0, "params": {}, "cost": 5})
     out.append({"name": "twin-seq", "algo": "SequOOL", "part": "B", "d": 1, "T": 3, "params": {"n": 10}, "twin": True, "expect_fail": "twin"})
     return out
 
